@@ -542,3 +542,8 @@ def ap2_raises(ctx, st, exc):
 
 UNITS.append(Unit("C15", "jsonargparse._link_arguments:ActionLink.apply_parsing_links", ap2_setup, ap2_post, ap2_raises, label="source-handling", max_paths=500,
                   trusted=["is_subclass_typehint / is_mapping_typehint / is_init_arg_mapping_typehint classify type hints", "get_signature_parameters: C13", "set_target_value / call_compute_fn: their own units"]))
+
+
+# the resolvers of source / target keys used by ActionLink.__init__, link_arguments itself, and the nested links handed to subclass parsers
+from contracts.link_helpers import find_parent_or_child_actions_unit, find_subclass_action_or_class_group_unit, get_nested_links_unit, link_arguments_unit  # noqa: E402
+UNITS += [find_parent_or_child_actions_unit("C15"), find_subclass_action_or_class_group_unit("C15"), link_arguments_unit("C15"), get_nested_links_unit("C15")]
